@@ -357,14 +357,24 @@ def self_leaves(shape, key):
     return [o for o in out if o]
 
 
-def gen_struct(tier, level):
+def outer(shapes, keys, residue, mod):
+    """the (shape, key) pairs of the outermost level that belong to shard `residue` of `mod`"""
+    i = 0
+    for sh in shapes:
+        for key in keys:
+            if residue is None or i % mod == residue:
+                yield sh, key
+            i += 1
+
+
+def gen_struct(tier, level, residue=None, mod=1):
+    """level-nested redirect URLs; (residue, mod) selects the outermost (shape, key) pairs of one shard"""
     quick = tier == "quick"
     if level == 1:
-        for sh in SHAPES:
-            for key in KEYS_ALL:
-                for leaf in LEAVES + self_leaves(sh, key):
-                    for enc in ENCS:
-                        yield fill(sh, key, enc(leaf))
+        for sh, key in outer(SHAPES, KEYS_ALL, residue, mod):
+            for leaf in LEAVES + self_leaves(sh, key):
+                for enc in ENCS:
+                    yield fill(sh, key, enc(leaf))
     elif level == 2:
         outer_keys = ["url", "u", "q", "next", "Q", "xu"] if quick else ["url", "u", "l", "q", "next", "redirect_to", "goto", "Q", "U", "xu"]
         outer_encs = [enc_full, enc_none] if quick else ENCS
@@ -373,11 +383,11 @@ def gen_struct(tier, level):
         in_leaves = LEAVES_SMALL if quick else LEAVES
         in_encs = [enc_full, enc_none] if quick else ENCS
         inner = [fill(s2, k2, e2(leaf)) for s2 in in_shapes for k2 in in_keys for leaf in in_leaves for e2 in in_encs]
-        for sh in SHAPES:
-            for key in outer_keys:
-                for enc in outer_encs:
-                    for u in inner:
-                        yield fill(sh, key, enc(u))
+        for enc in outer_encs:
+            values = [enc(u) for u in inner]
+            for sh, key in outer(SHAPES, outer_keys, residue, mod):
+                for v in values:
+                    yield fill(sh, key, v)
     elif level == 3:
         sh3 = SHAPES[:4] + ["?{P}", "{P}", "http://a.com/p&{P}", "http://a.com/p#x&{P}"] if quick else SHAPES
         k3 = ["u", "q", "url"] if quick else ["u", "q", "url", "next"]
@@ -389,25 +399,23 @@ def gen_struct(tier, level):
         for encs in ([(enc_full, enc_full, enc_full), (enc_none, enc_none, enc_none)] if quick else
                      [(enc_full, enc_full, enc_full), (enc_none, enc_none, enc_none), (enc_full, enc_full, enc_none)]):
             inner = [fill(s, k, encs[2](leaf)) for s in in_sh for k in in_k for leaf in leaves]
-            mid = [fill(s, k, encs[1](u)) for s in mid_sh for k in mid_k for u in inner]
-            for sh in sh3:
-                for key in k3:
-                    for u in mid:
-                        yield fill(sh, key, encs[0](u))
+            values = [encs[0](fill(s, k, encs[1](u))) for s in mid_sh for k in mid_k for u in inner]
+            for sh, key in outer(sh3, k3, residue, mod):
+                for v in values:
+                    yield fill(sh, key, v)
     elif level == 4:
         sh = ["http://a.com/p?{P}", "?{P}", "{P}", "http://a.com/p&{P}", "https://www.youtube.com/redirect?{P}", "/p?{P}"]
-        sh_out = sh if quick else sh + ["https://a.com?{P}", "http://a.com/p#x&{P}"]
+        sh_out = sh + ["https://a.com?{P}", "http://a.com/p#x&{P}"]
         ks = ["u", "q"]
-        ks_out = ks if quick else ["u", "q", "url"]
+        ks_out = ["u", "q", "url"]
         leaves = LEAVES_SMALL[:12] if quick else LEAVES_SMALL + ["//?", "//#", "http://b.c", "///"]
         for e in ([enc_full] if quick else [enc_full, enc_none]):
             l1 = [fill(s, k, e(leaf)) for s in sh for k in ks for leaf in leaves]
             l2 = [fill(s, k, e(u)) for s in sh for k in ks for u in l1]
-            l3 = [fill(s, k, e(u)) for s in sh for k in ks for u in l2]
-            for s in sh_out:
-                for k in ks_out:
-                    for u in l3:
-                        yield fill(s, k, e(u))
+            values = [e(fill(s, k, e(u))) for s in sh for k in ks for u in l2]
+            for s, k in outer(sh_out, ks_out, residue, mod):
+                for v in values:
+                    yield fill(s, k, v)
 
 
 # ---------------------------------------------------------------------------------------------------------------------
@@ -499,7 +507,7 @@ def shard_worker(job):
         it = gen_exh(tokens, spec[1], spec[2])
     elif kind == "struct":
         _, level, residue = spec
-        it = (u for i, u in enumerate(gen_struct(tier, level)) if i % STRUCT_MOD == residue)
+        it = gen_struct(tier, level, residue, STRUCT_MOD)
     elif kind == "cache":
         _, residue = spec
         it = (u for i, u in enumerate(gen_cache(tier)) if i % STRUCT_MOD == residue)
